@@ -708,7 +708,7 @@ def run(ctx):
         ctx.notes.append('internal structure differs from the model (not an alarm by itself): ' + repr(soft[:2])[:1500])
     if mism:
         ctx.notes.append('first mismatches: ' + repr(mism[:3])[:3000])
-    if not ctx.violations and not ctx.known_printed:
+    if not ctx.violations:   # a printed KNOWN-FINDING must not hide a broken proof / model / correspondence
         if not built:
             ctx.violation('proof-broken', {'theorems': [o[0] for o in ctx.obligations if not o[1]], 'log': getattr(ctx, 'broken_log', '')[-3000:]}, 'Props/C09.v no longer checks', no_input=True)
         elif not model_ok:
